@@ -74,6 +74,9 @@ def cases(draw):
         return case
     # refineSolution=True: the value Solve returns is the refined one; it may only be lower (C05), the bound stays
     case["refine"] = draw(st.integers(0, 3)) == 0
+    if "first_limit" not in case and draw(st.integers(0, 4)) == 0:
+        # the first iterations are requested in batches (DoGlobalIteration(k), k > 1), Solve finishes the search
+        case["batches"] = draw(gen.compositions(draw(st.sampled_from([10, 40, 50, 100])), max_parts=4))
     if draw(st.integers(0, 4)) == 0:
         # the search is first run with a small budget, then the budget is raised and Solve is called again: the
         # statement is about the Solve that ends with the accuracy stop, however the trials before it were spent
@@ -91,11 +94,19 @@ def body(case):
         run.sp.itersLimit = p["itersLimit"]
     else:
         run = Run(recipe, p, refine=refine)
+        try:
+            for k in case.get("batches", []):
+                run.step(k)
+        except Exception as e:
+            if "outside of interval" not in str(e):
+                raise
+            return False, ["N=%d" % n, "inconclusive:float-resolution"]
     sol = run.solve()
     hist = run.history()
     classes = ["N=%d" % n, "class=" + case["class"], "family=" + recipe["obj"]["family"],
                "thin-box" if (n == 1 and recipe["upper"][0] - recipe["lower"][0] < 1e-3) else "ordinary-box",
-               "budget-raised-then-solved-again" if case.get("first_limit") else "single-solve"]
+               "budget-raised-then-solved-again" if case.get("first_limit") else
+               ("batches-then-solve" if case.get("batches") else "single-solve")]
     if "Exception was thrown" in run.stdout():
         if not swallowed_exception_is_float_resolution(run):
             fail("Solve swallowed an internal exception after %d trials" % len(hist))
